@@ -230,12 +230,13 @@ pub fn runtime(thorough: bool) -> Report {
 // C20 bounded stand-in: the same detect/build logic on identical inputs in two fresh processes leaves byte-identical outputs
 pub fn twice(_thorough: bool) -> Report {
     let mut r = Report::new(
-        "each scenario run in TWO fresh child processes of the real libcnb_runtime (separate temp roots, hence different hash seeds, pids and times): detect pass+plan; build with launch/store/all SBOM formats; build doing layer work (uncached layer with 24 environment entries over all scopes incl. three process types and all five behaviours, two SBOMs, 12 exec.d programs, a cached layer with 16 metadata keys); build returning a launch configuration with 4 processes, 8 labels and 3 slices: the normalised snapshots of <layers> and the plan file are compared byte for byte; non-trivial = scenarios that write through map-typed inputs",
+        "each scenario run in TWO fresh child processes of the real libcnb_runtime (separate temp roots, hence different hash seeds, pids and times): detect pass+plan (also a plan with 3 alternatives of 5-8 provides and requires each); build with launch/store/all SBOM formats; build doing layer work (uncached layer with 24 environment entries over all scopes incl. three process types and all five behaviours, two SBOMs, 12 exec.d programs, a cached layer with 16 metadata keys); build returning a launch configuration with 4 processes, 8 labels and 3 slices: the normalised snapshots of <layers> and the plan file are compared byte for byte; non-trivial = scenarios that write through map-typed inputs",
         "4 scenarios x 2 processes (x 3 repetitions)",
     );
     let exe = std::env::current_exe().unwrap().parent().unwrap().join("rtbp");
     let scenarios: Vec<(&str, Vec<(&str, &str)>)> = vec![
         ("detect", vec![("VERIF_DO", "pass_plan")]),
+        ("detect", vec![("VERIF_DO", "pass_richplan")]),
         ("build", vec![("VERIF_DO", "pass"), ("VERIF_PARTS", "launch,store,b0,b1,b2,l0,l1,l2,b0x")]),
         ("build", vec![("VERIF_DO", "pass"), ("VERIF_PARTS", "launch,store"), ("VERIF_LAYERS", "1")]),
         ("build", vec![("VERIF_DO", "pass"), ("VERIF_PARTS", "richlaunch,store,b1,l0")]),
